@@ -601,7 +601,7 @@ func init() { register("C13", Rule{"R13e", ruleSignificantPayloadUnaltered}) }
 // can be encoded as the same constant, decoding cannot give both back: e.g. a number class mapped to null next to the
 // empty set, which is null already.
 func ruleConstantImagesDistinct(p *Program, r *Report) {
-	r.Begin("R13f", "constant images are not shared between kinds: under each strict setting, TS-SCCP of Translator.FromArrai per value type collects the constant results returned with a nil error on any executable return; no constant is the image of values of two different types", 2)
+	r.Begin("R13f", "constant images are not shared between kinds: under each strict setting, TS-SCCP of Translator.FromArrai per value type collects the constant results returned with a nil error on any executable return; no constant is the image of values of two different types", 1)
 	defer r.End()
 	fa := p.Method("translate", "Translator", "FromArrai")
 	if fa == nil {
